@@ -75,7 +75,7 @@ theorem iter_inv (dst : Ip) (pre : List Route) (acc acc' : Acc) (r : Route)
     simp only [hm] at h
     by_cases hin : inNet dst r.addr p = true
     · simp only [hin, if_true] at h
-      by_cases hc : ((decide ((p : Int) > acc.longest)) || (((p : Int) == acc.longest) && ltLowest r.metric acc.lowest)) = true
+      by_cases hc : betterCond p acc.longest r.metric acc.lowest = true
       · -- the route replaces the current best
         rw [if_pos hc] at h
         have h' : acc' = { best := some (pre.length, r), longest := p, lowest := some r.metric } := by
@@ -97,7 +97,7 @@ theorem iter_inv (dst : Ip) (pre : List Route) (acc acc' : Acc) (r : Route)
               obtain ⟨i0, r0'⟩ := ir
               obtain ⟨_, p0, _, hl, hlo, hall⟩ := hI.some_case i0 r0' hb0
               have hb := hall j r' p' hj' hcov
-              simp only [Bool.or_eq_true, decide_eq_true_eq, Bool.and_eq_true, beq_iff_eq, hl, hlo, ltLowest] at hc
+              simp only [betterCond, Bool.or_eq_true, decide_eq_true_eq, Bool.and_eq_true, beq_iff_eq, hl, hlo, ltLowest] at hc
               unfold Better at hb ⊢
               omega
           · have : p' = p := by
@@ -112,7 +112,7 @@ theorem iter_inv (dst : Ip) (pre : List Route) (acc acc' : Acc) (r : Route)
         | none =>
           obtain ⟨hl, hlo, _⟩ := hI.none_case hb0
           exfalso; apply hc
-          simp [hl]
+          simp [betterCond, hl]
           omega
         | some ir =>
           obtain ⟨i0, r0⟩ := ir
@@ -136,7 +136,7 @@ theorem iter_inv (dst : Ip) (pre : List Route) (acc acc' : Acc) (r : Route)
                 rcases Nat.lt_or_ge i0 pre.length with h' | h'
                 · exact h'
                 · rw [List.getElem?_eq_none h'] at hget; simp at hget
-              simp only [Bool.or_eq_true, decide_eq_true_eq, Bool.and_eq_true, beq_iff_eq, hl, hlo, ltLowest, not_or,
+              simp only [betterCond, Bool.or_eq_true, decide_eq_true_eq, Bool.and_eq_true, beq_iff_eq, hl, hlo, ltLowest, not_or,
                 not_and] at hc
               unfold Better
               omega
